@@ -1,5 +1,7 @@
 Require Import ExtrOcamlBasic.
-From Eupsv Require Import Base.Base Model.Resolve Model.ResolveSpec Generated.Config.
+From Eupsv Require Import Base.Base Model.Resolve Model.ResolveSpec Generated.Config Model.ResolveReal.
 Extraction "model.ml" keep_types parse_entry entry_str select_vro initial_preferred find_from_vro
   resolve_request classify designates_in designates wf_db vcmp_simple vmatch_simple
-  site_config default_config pinned_path_quirk.
+  site_config default_config pinned_path_quirk
+  vcmp_real vmatch_real resolve_real walk_real real_domain real_names_ok conv_names names_of
+  latest_tie expr_tie find_latest select_latest find_by_expr is_expr.
